@@ -658,7 +658,7 @@ class Interp:
                     out.extend(self.eval_forking(inner.body, s, ctx))
                     out.extend(self.eval_forking(inner.orelse, sf, ctx))
             return out
-        if isinstance(inner, ast.BoolOp) and len(inner.values) == 2 and not awaited:
+        if isinstance(inner, ast.BoolOp) and len(inner.values) == 2 and not awaited and ctx.depth <= 1:
             # value-producing `a or b` / `a and b`: fork on the truth of a
             out = []
             is_or = isinstance(inner.op, ast.Or)
@@ -931,6 +931,8 @@ class Interp:
             return self.ref_value(r, ctx)
         if t == "ext":
             return ("ext", f"{base[1]}.{attr}")
+        if t == "builtin":
+            return ("ext", f"builtins.{base[1]}.{attr}")
         if t == "class":
             ci: ClassInfo = base[1]
             if ci.enum is not None and attr in ci.enum.members:
@@ -1175,6 +1177,13 @@ class Interp:
         folded = fold_cmp(name, a2, b2)
         if folded is not None:
             return c(folded)
+        # comparison of a two-valued choice with a constant distributes over the choice
+        if name in ("==", "!=", "is", "is not"):
+            for x, y in ((a2, b2), (b2, a2)):
+                if x[0] == "ite" and _known(y) and _known(x[2]) and _known(x[3]):
+                    fa, fb = fold_cmp(name, x[2], y), fold_cmp(name, x[3], y)
+                    if fa is not None and fb is not None:
+                        return ite(x[1], c(fa), c(fb))
         if name in ("in", "not in"):
             r = self.lib.membership(self, a2, b2, st, ctx, node)
             if r is not None:
@@ -1310,6 +1319,8 @@ class Interp:
             return ite(v[1], a, b)
         if t == "sym" and isinstance(v[2], tuple) and v[2] and v[2][0] == "enum":
             return c(True)
+        if t == "lookup" and all(x[0] == "enum" for _, x in v[1]):
+            return c(True)
         return ("truthy", v)
 
 
@@ -1419,6 +1430,23 @@ def ite(cond: Term, a: Term, b: Term) -> Term:
         return a if cond[1] else b
     if a == b:
         return a
+    # canonical polarity: the condition is kept in its positive form
+    if (cond[0] == "cmp" and cond[1] in ("!=", "not in", "is not")) or cond[0] == "not":
+        cond, a, b = neg(cond), b, a
+    if is_c(a) and is_c(b) and a[1] is True and b[1] is False:
+        return cond
+    if is_c(a) and is_c(b) and a[1] is False and b[1] is True:
+        return neg(cond)
+    if _is_cond(a) and _is_cond(b):
+        # boolean-valued choice: short-circuit forms of `and` / `or`
+        if b == cond or (is_c(b) and b[1] is False):
+            return conj([cond, a])
+        if a == cond or (is_c(a) and a[1] is True):
+            return disj([cond, b])
+        if a == neg(cond) or (is_c(a) and a[1] is False):
+            return conj([neg(cond), b])
+        if b == neg(cond) or (is_c(b) and b[1] is True):
+            return disj([neg(cond), a])
     return ("ite", cond, a, b)
 
 
